@@ -193,7 +193,9 @@ pub fn gen_anim<S: Shape>(r: &mut Rng, opts: &GenOpts) -> AnimSpec {
 }
 
 fn anim_case<S: Shape>(r: &mut Rng, acc: &mut Acc, index: u64) {
-    let mut spec = gen_anim::<S>(r, &GenOpts::default());
+    // negative delays included: a state whose timeline is already running when it is entered changes
+    // values at once, which makes transitions without an advance in between observable
+    let mut spec = gen_anim::<S>(r, &GenOpts { neg_delay: true, ..GenOpts::default() });
     for st in spec.states.iter_mut() {
         for tl in st.iter_mut() {
             for f in 0..S::N_ANIM {
